@@ -71,6 +71,10 @@ type Unit struct {
 	SpecialNames []string
 	// Origin: "atom", "example", "random"
 	Origin string
+	// Dep, when set, is a second .proto file of the unit that File imports (by Dep's name). It is generated with the
+	// runtime's own generator only (plain types) into its own Go package whose NAME differs from the last element
+	// of its import path (go_package = ".../dep/v2;deppb"), the way versioned API packages are laid out.
+	Dep *descriptorpb.FileDescriptorProto
 }
 
 // FileB builds a file.
